@@ -26,7 +26,8 @@ CHECKS = {
 }
 
 CHECKS['C08'] = dict(
-    technique='Hypothesis-generated (class model, text) pairs with an '
+    technique='[thorough tier additionally: atheris/libFuzzer coverage-guided byte fuzzing of load(text) over 20 portfolio models with this property\'s oracle inside the target, 16 processes] '
+              'Hypothesis-generated (class model, text) pairs with an '
               'exception-type oracle; failures bucketed by (type, innermost '
               'yatiml/yaml frame)',
     text='Generated class models with every feature that can raise (raising '
@@ -40,7 +41,8 @@ CHECKS['C08'] = dict(
     design='4 C08')
 
 CHECKS['C01'] = dict(
-    technique='Hypothesis-generated (class model, document) pairs with a '
+    technique='[thorough tier additionally: atheris/libFuzzer coverage-guided byte fuzzing of load(text) over 20 portfolio models with this property\'s oracle inside the target, 16 processes] '
+              'Hypothesis-generated (class model, document) pairs with a '
               'conformance validity predicate on the returned value and on '
               'the constructor arguments logged by generated classes',
     text='Generated models with all features (hierarchies, abstract and '
@@ -53,7 +55,8 @@ CHECKS['C01'] = dict(
          'received conforming arguments.',
     design='4 C01')
 CHECKS['C04'] = dict(
-    technique='Hypothesis-generated tag injection with constructor-log, '
+    technique='[thorough tier additionally: atheris/libFuzzer coverage-guided byte fuzzing of load(text) over 20 portfolio models with this property\'s oracle inside the target, 16 processes] '
+              'Hypothesis-generated tag injection with constructor-log, '
               'plain-data and canary-module oracles',
     text='Generated models with Any/untyped/extra positions and a registered '
          'trap class x documents with registered, unknown, !!python/* and '
@@ -63,7 +66,8 @@ CHECKS['C04'] = dict(
          'canary module is never imported.',
     design='4 C04')
 CHECKS['C18'] = dict(
-    technique='Hypothesis-generated differential test: aliased document vs '
+    technique='[thorough tier additionally: atheris/libFuzzer coverage-guided byte fuzzing of load(text) over 20 portfolio models with this property\'s oracle inside the target, 16 processes] '
+              'Hypothesis-generated differential test: aliased document vs '
               'its alias-expanded copy (metamorphic relation), plus cyclic '
               'templates',
     text='Generated (model, document) pairs where 1-3 sub-nodes (scalars, '
